@@ -7,6 +7,6 @@ python3 -c "
 import sys; sys.path.insert(0,'.')
 from sa import extract
 extract.ensure_driver()
-for k in ('K0','K1'):
+for k in ('K0','K1','K3'):
     print(extract.extract(k, quiet=False))
 "
